@@ -31,7 +31,7 @@ def run(case):
         t = cases.trajectory(steps, case['symbols'], M, case['time_step'], case['temperature'], case['species_kind'], coords_are_displacement=True, base_positions=path[0] - np.floor(path[0]))
     else:
         coords = path - np.floor(path) if form == 'wrapped' else path
-        t = cases.trajectory(coords, case['symbols'], M, case['time_step'], case['temperature'], case['species_kind'])
+        t = cases.derived_trajectory(coords, case['symbols'], M, case['time_step'], case['temperature'], case['species_kind'], derive=case.get('derive'))
     if case.get('touch_first'):
         gcall(lambda: t.displacements)  # start from the displacement representation
     # read-only queries issued before the quantities are compared (call-order dependence)
@@ -105,6 +105,7 @@ def msd_cases(draw, tier):
     c['touch_first'] = draw(st.booleans())
     c['dims_order'] = draw(st.permutations([1, 2, 3]))
     c['tile'] = draw(st.sampled_from([1, 1, 1, 1, 1, 40])) if T >= 12 else 1  # a long run: hundreds of cell crossings
+    c['derive'] = draw(cases.derive_strategy())  # the trajectory as a frame range / species selection / joined pieces of other trajectories
     c['prelude'] = draw(st.lists(st.sampled_from(['positions', 'displacements', 'cumulative', 'center_of_mass', 'haven', 'com_diffusivity', 'msd', 'distances', 'filter', 'drift']), max_size=4))
     return c
 
